@@ -174,6 +174,8 @@ def synthetic(rng, wild=False):
         tr, ix, cur = [], [], 0
         for j in range(k):
             t0 += rng.randint(40, 400) * 86400 + rng.choice([0, 3600, 7200, 1800])
+            if t0 > 2 ** 31 - 86400 * 400:
+                break
             nxt = rng.choice([i for i in range(len(types)) if i != cur])
             tr.append(t0)
             ix.append(nxt)
